@@ -222,6 +222,7 @@ exec_result execute(const program& p, u64 seed, const vs::params& prm) {
     const int id = S.spawn_slot();
     ids.push_back(id);
     ths.emplace_back(thread_body, static_cast<int>(t), id);
+    S.activate(id);
   }
   for (std::size_t t = 0; t < ths.size(); ++t) S.join(ids[t], ths[t]);
   exec_result res{S.steps, S.nswitches, S.intra_op_switches, S.signature, S.spins, {}, w.violated};
